@@ -20,7 +20,6 @@ import contextlib
 import io
 import itertools
 import os
-import sys
 import warnings
 from math import prod
 
